@@ -16,7 +16,11 @@ instance theorems of coq/C13.v.
   c13_entry_points_push         extract / extract_outermost run their body inside
                                 `with current_options.push(with_contexts=with_contexts,
                                 recurse_child_tasks=recurse_child_tasks)`; fill_context pushes
-                                (True, False) under `if current_options.with_contexts is None`
+                                (True, False) under `if current_options.with_contexts is None`;
+                                extract_since / extract_until take both options and EVERY return path
+                                is an `extract(...)` call that forwards them (same-named keywords, or
+                                `**d` with d = {"with_contexts": with_contexts, "recurse_child_tasks":
+                                recurse_child_tasks} bound once in the function)
   c13_fresh_result_lists        every Stack built in _extract.py owns a fresh `frames` list: no function
                                 of the module has a mutable default argument, the module (and its class
                                 bodies) binds no list/dict/set at top level apart from __all__, and the
@@ -214,7 +218,67 @@ def _push_with(fn, expect):
     return found
 
 
+def _forwards_options(fn) -> bool:
+    """every return of fn is `extract(...)` forwarding both options of fn unchanged"""
+    params = {a.arg for a in fn.args.kwonlyargs + fn.args.args}
+    if not set(ATTRS) <= params:
+        return False
+    # dicts that hold exactly the two options: name -> number of bindings
+    binds, good = {}, set()
+    for x in ast.walk(fn):
+        tg = []
+        if isinstance(x, ast.Assign):
+            tg = [(t, x.value) for t in x.targets]
+        elif isinstance(x, (ast.AnnAssign, ast.AugAssign)):
+            tg = [(x.target, x.value)]
+        elif isinstance(x, (ast.For, ast.AsyncFor, ast.comprehension)):
+            tg = [(x.target, None)]
+        for t, v in tg:
+            for nm in ast.walk(t):
+                if isinstance(nm, ast.Name):
+                    binds[nm.id] = binds.get(nm.id, 0) + 1
+                    if (t is nm and isinstance(v, ast.Dict) and len(v.keys) == 2
+                            and all(isinstance(k, ast.Constant) for k in v.keys)
+                            and all(isinstance(w, ast.Name) for w in v.values)
+                            and {k.value: w.id for k, w in zip(v.keys, v.values)} == {a: a for a in ATTRS}):
+                        good.add(nm.id)
+        if isinstance(x, ast.Subscript) and isinstance(x.ctx, (ast.Store, ast.Del)):
+            return False          # d[...] = ... / del d[...]
+        if isinstance(x, ast.Call) and isinstance(x.func, ast.Attribute) and x.func.attr in (
+                "update", "pop", "clear", "setdefault", "popitem"):
+            return False
+    if any(a in binds for a in ATTRS):
+        return False              # an option parameter is re-bound
+
+    def ok_call(c):
+        if not (isinstance(c, ast.Call) and isinstance(c.func, ast.Name) and c.func.id == "extract"):
+            return False
+        got = {}
+        for k in c.keywords:
+            if k.arg is None:
+                if isinstance(k.value, ast.Name) and k.value.id in good and binds.get(k.value.id) == 1:
+                    for a in ATTRS:
+                        if a in got:
+                            return False
+                        got[a] = a
+                else:
+                    return False
+            elif k.arg in ATTRS:
+                if k.arg in got or not (isinstance(k.value, ast.Name) and k.value.id == k.arg):
+                    return False
+                got[k.arg] = k.arg
+        return got == {a: a for a in ATTRS}
+    rets = [x for x in ast.walk(fn) if isinstance(x, ast.Return)]
+    calls = [x for x in ast.walk(fn) if isinstance(x, ast.Call) and isinstance(x.func, ast.Name)
+             and x.func.id in ("extract", "extract_child", "extract_iter", "extract_outermost")]
+    return bool(rets) and all(ok_call(r.value) for r in rets) and all(ok_call(c) for c in calls)
+
+
 def entry_points(tree) -> bool:
+    for name in ("extract_since", "extract_until"):
+        fn = _top(tree, ast.FunctionDef, name)
+        if fn is None or not _forwards_options(fn):
+            return False
     same = {a: ("name", a) for a in ATTRS}
     for name in ("extract", "extract_outermost"):
         fn = _top(tree, ast.FunctionDef, name)
